@@ -1,0 +1,24 @@
+//go:build verif
+
+// Verification contracts for segment discovery (C36: offset statistics handed to the SQL server; comment-only;
+// read by /verif/govc). This file contains no executable code.
+
+package discovery
+
+// The "next" segment is the one that follows in the (topic, partition, base offset)-sorted list and belongs to the
+// same topic-partition; otherwise there is none.
+//@ func findNextSegment
+//@   requires 0 <= index && index < len(segments)
+//@   ensures [C36.next_none] (result == nil) == (index + 1 >= len(segments) || segments[index+1].Topic != segments[index].Topic || segments[index+1].Partition != segments[index].Partition)
+//@   ensures [C36.next_is_following] result != nil ==> *result == segments[index+1]
+
+// MaxOffset handed to the SQL server: for a segment followed by another segment of the same topic-partition with a
+// positive base offset, MaxOffset is set to exactly next.BaseOffset - 1 (the tightest bound that keeps every
+// offset below the next segment's base: offsets are contiguous and segments do not overlap, C02); otherwise the
+// field keeps the value it had before the iteration.
+//@ func (l *s3Lister) ListCompleted
+//@   ghost gprev *int64 = nil
+//@   at findNextSegment#1 before set gprev = segments[rangeindex].MaxOffset
+//@   loop 4 invariant -1 <= rangeindex && rangeindex < len(segments)
+//@   at loopstep#4 assert [C36.max_offset_from_next_base] (rangeindex + 1 < len(segments) && segments[rangeindex+1].Topic == segments[rangeindex].Topic && segments[rangeindex+1].Partition == segments[rangeindex].Partition && segments[rangeindex+1].BaseOffset > 0) ==> segments[rangeindex].MaxOffset != nil && *segments[rangeindex].MaxOffset == segments[rangeindex+1].BaseOffset - 1
+//@   at loopstep#4 assert [C36.max_offset_untouched_otherwise] !(rangeindex + 1 < len(segments) && segments[rangeindex+1].Topic == segments[rangeindex].Topic && segments[rangeindex+1].Partition == segments[rangeindex].Partition && segments[rangeindex+1].BaseOffset > 0) ==> segments[rangeindex].MaxOffset == gprev
